@@ -129,7 +129,8 @@ def check(col, prog, tier, profile, fixture=None):
         adv = [k for k, e in enumerate(evs) if e.kind == "store" and e.place == ("field", selfp, END)]
         key = "%s|room-copy-advance" % fk(wb)
         why = None
-        if not cp and not adv and any(f[0] == "eq" and isinstance(f[1], tuple) and f[1] and f[1][0] == "bin" and ((f[1][1] == "Eq" and f[2] == 1) or (f[1][1] == "Ne" and f[2] == 0)) and {f[1][2], f[1][3]} == {L, mk_int(0)} for f in st.facts):
+        empty_by_call = any(f[0] == "eq" and f[2] == 1 and isinstance(f[1], tuple) and f[1] and f[1][0] == "call" and str(f[1][1]).endswith("::is_empty") and any(x in (("param", 2, I.names.get(2)), ("ref", bufp)) for x in f[1][2]) for f in st.facts)
+        if not cp and not adv and (empty_by_call or any(f[0] == "eq" and isinstance(f[1], tuple) and f[1] and f[1][0] == "bin" and ((f[1][1] == "Eq" and f[2] == 1) or (f[1][1] == "Ne" and f[2] == 0)) and {f[1][2], f[1][3]} == {L, mk_int(0)} for f in st.facts)):
             col.ok("V1" + sfx, wb.loc(), key + "|%d|empty" % n, "empty slice: nothing to append, nothing changes")
             continue
         if len(cp) != 1:
@@ -146,6 +147,19 @@ def check(col, prog, tier, profile, fixture=None):
                 facts = set(c.state[0]) | {("eq", ("bin", "Le", end0, mk_int(cap)), 1), ("eq", ("bin", "Le", L, mk_int(cap)), 1)}
                 z = zones.zone_of(frozenset(facts), I.tys)
                 cur_end = I.load(c.state[1], ("field", selfp, END))
+                # the fill level may be advanced before the copy (`let start = end; end += len; buf[start..end] <- bytes`):
+                # the copy then starts at the level the advance started from
+                early = [k for k in adv if k < cp[0] and evs[k].val != mk_int(0)]
+                if len(early) == 1 and not [k for k in adv if k > cp[0]]:
+                    prev_end = I.load(evs[early[0]].state[1], ("field", selfp, END))
+                    if util.lin_equal(evs[early[0]].val, ("bin", "Add", prev_end, L)) and not [k for k in adv if early[0] < k < cp[0]]:
+                        cur_end = prev_end
+                        adv = [k for k in adv if k != early[0]] + [cp[0] + 10 ** 6]
+                        early_val = evs[early[0]].val
+                    else:
+                        early_val = None
+                else:
+                    early_val = None
                 if not util.lin_equal(b_, ("bin", "Add", a_, L)):
                     why = "the destination range %s..%s is not exactly len(bytes) long" % (tstr(a_), tstr(b_))
                 elif not (a_ == cur_end or z.entails("Eq", a_, cur_end)):
@@ -154,7 +168,10 @@ def check(col, prog, tier, profile, fixture=None):
                     why = "on this path end + len <= capacity (%d) is not entailed at the copy: the bytes do not fit (no flush, or a wrong threshold)" % cap
                 else:
                     later = [k for k in adv if k > cp[0]]
-                    if len(later) != 1 or not util.lin_equal(evs[later[0]].val, ("bin", "Add", a_, L)):
+                    if early_val is not None:
+                        if not util.lin_equal(early_val, ("bin", "Add", a_, L)):
+                            why = "end is not advanced by exactly len(bytes)"
+                    elif len(later) != 1 or not util.lin_equal(evs[later[0]].val, ("bin", "Add", a_, L)):
                         why = "end is not advanced by exactly len(bytes) after the copy"
         if why is None:
             col.ok("V1" + sfx, wb.loc(), key + "|%d" % n, "room for len entailed; buf[end..end+len] <- bytes; end += len")
